@@ -27,6 +27,12 @@ type lit struct {
 	Ip   []int  `json:"ip"`
 	Fp   []int  `json:"fp"`
 	Fd   int    `json:"fd"`
+	// Before: a literal to be parsed first (at its own precision); the result for this one must not depend on it
+	Before *struct {
+		Ip []int `json:"ip"`
+		Fp []int `json:"fp"`
+		Fd int   `json:"fd"`
+	} `json:"before"`
 }
 type res struct {
 	Less bool `json:"less"`
@@ -164,6 +170,14 @@ func exec(kind byte, body []byte) *core.Verdict {
 		s := l.Sign + ds(l.Ip)
 		if len(l.Fp) > 0 {
 			s += "." + ds(l.Fp)
+		}
+		if l.Before != nil {
+			b := l.Sign + ds(l.Before.Ip)
+			if len(l.Before.Fp) > 0 {
+				b += "." + ds(l.Before.Fp)
+			}
+			yang.ParseDecimal(b, uint8(l.Before.Fd))
+			v.N = 2
 		}
 		var got yang.Number
 		var err error
